@@ -20,6 +20,7 @@ DTYPES = {0: np.dtype('int64'), 1: np.dtype('float64'), 2: np.dtype('int32')}
 F20_SIG = 'slice(step<0,start<-n);symptom=wrong_data'
 F21_SIG = 'reads;empty_region;symptom=over_read'
 F23_SIG = 'cull;symptom=raises(Missing dependency)'
+F24_SIG = 'dask_take;empty_array;symptom=raises(range() arg 3 must not be zero)'
 F22_SIG = 'joint;duplicate_indexer;symptom=output_not_written'
 
 
@@ -367,14 +368,17 @@ def compare(ctx, case, mo):
     show = impl['exc'] if impl['out'] is None else dict(shape=list(impl['out'].shape), dtype=str(impl['out'].dtype),
                                                         values=impl['out'].astype(np.int64).ravel().tolist()[:40])
     f23 = impl['exc'] is not None and 'Missing dependency' in impl['exc']
+    f24 = impl['exc'] is not None and 'range() arg 3 must not be zero' in impl['exc']
     if vt is not None and vt != 'out_of_domain_answer':
-        ctx.disagree(F23_SIG if f23 else signature(case, 'tie:' + vt), cj, show, mo[1], 'implementation differs from the extracted model of '
+        ctx.disagree(F23_SIG if f23 else F24_SIG if f24 else signature(case, 'tie:' + vt), cj, show, mo[1], 'implementation differs from the extracted model of '
                      'dask_getitem/DaskLazyIndexer', spec=mo[3], kind='tie')
     if vs is not None and vs != 'out_of_domain_answer':
         if case['f20'] and vt is None:
             sig = F20_SIG
         elif f23:
             sig = F23_SIG
+        elif f24:
+            sig = F24_SIG
         else:
             sig = signature(case, vs)
         ctx.disagree(sig, cj, show, mo[1], 'DaskLazyIndexer result differs from transform(array[stage 1])[stage 2] under '
